@@ -4,7 +4,10 @@
 //! elements that start with any number of namespace and attribute nodes.
 //!
 //! Correspondence: every request goes to the model too (`forest …` requests of suite_forest's
-//! session, `fmap …` requests of Driver/Fmap.lean); both views are read after every step.
+//! session, `fmap …` requests of Driver/Fmap.lean); both views are read after every step.  Every
+//! `fmap` call is answered with the value the real call RETURNS (old value of insert / remove,
+//! the value behind a returned `&mut V`, …; the node of append_*_node in the `forest` requests),
+//! which the model answers from `MapCall.run` and the reference map from its own state.
 //! Oracle (implementation only): an independent insertion-ordered reference map (a Vec of
 //! entries, `RMap`) is fed the same updates; after every step every accessor of the read-only
 //! and of the mutable view must agree with it (content, order, and which node carries which
